@@ -568,7 +568,10 @@ theorem image_roundtrip (sched : Nat → List Nat) (hs : Sufficient sched) (h w 
       img.shape = Shape.from (Shape.chain ops (Shape.from h w)).height (Shape.chain ops (Shape.from h w)).width ∧
       img.data = (specChain ops (reshape h w data)).flatten ∧
       ∀ r c, (get (Shape.chain ops (Shape.from h w)) data r c).map (·.2) = cellAt (specChain ops (reshape h w data)) r c := by
-  have H := SurfProofs.C07.C07_iter h w ops data hlen
+  have hbig : h * w < SurfModel.Shape.usizeMax := by
+    have : USIZE = 2 ^ 64 := rfl
+    simp only [SurfModel.Shape.usizeMax]; omega
+  have H := SurfProofs.C07.C07_iter h w ops data (by omega) hbig
   dsimp only at H
   obtain ⟨hiter, _, hfst, hsnd, hIlen, hWlen, hnodup⟩ := H
   -- the view has at most as many cells as the image
@@ -604,6 +607,6 @@ theorem image_roundtrip (sched : Nat → List Nat) (hs : Sufficient sched) (h w 
   · rw [hdata]; simp [groupPixels, group4_bytes]
   · intro r c
     rw [← hsh]
-    exact SurfProofs.C07.C07_window h w ops data hlen r c
+    exact SurfProofs.C07.C07_window h w ops data (by omega) r c
 
 end SurfProofs.C19
